@@ -51,9 +51,25 @@ type sim struct {
 	curSlot uint64
 	step    int
 	stop    bool
+	passive int             // > 0 inside monitors that only observe
+	foreign map[string]bool // findings of other properties already recorded
 }
 
 func (s *sim) viol(prop, sig, detail string) {
+	// Inside the passive monitors (they only look at a state) a finding that belongs to ANOTHER
+	// property than the one under check is recorded once and the run goes on: otherwise the monitor
+	// that happens to run first would hide the same defect from the check of the property it also
+	// breaks (the driver reports only the property under check).
+	if s.passive > 0 && s.opt.Property != "" && prop != s.opt.Property {
+		if s.foreign == nil {
+			s.foreign = map[string]bool{}
+		}
+		if !s.foreign[prop+"/"+sig] {
+			s.foreign[prop+"/"+sig] = true
+			s.res.Violate(prop, prop+"/"+sig, detail, s.step)
+		}
+		return
+	}
 	s.res.Violate(prop, prop+"/"+sig, detail, s.step)
 	s.stop = true
 }
@@ -669,6 +685,8 @@ func nodeKind(n *simNode, tick bool) string {
 }
 
 func (s *sim) afterState(n *simNode, box *stateBox, where string) {
+	s.passive++
+	defer func() { s.passive-- }()
 	s.checkContext(n, box, where)
 	if s.stop {
 		return
@@ -722,7 +740,10 @@ func (s *sim) tick(n *simNode, slot uint64) {
 	}
 	s.res.Stat("slot_ticks", 1)
 	if s.steps && preTick != nil {
-		if !s.checkSlotsStep(preTick, n.ticked, slot, fmt.Sprintf("node %d tick", n.id)) {
+		s.passive++
+		ok := s.checkSlotsStep(preTick, n.ticked, slot, fmt.Sprintf("node %d tick", n.id))
+		s.passive--
+		if !ok && s.stop {
 			return
 		}
 	}
@@ -863,7 +884,9 @@ func run(cfg *Config, opt core.Options, res *core.Result) *sim {
 				}
 			}
 			if s.steps {
+				s.passive++
 				s.checkBlockStep(parent, blk)
+				s.passive--
 				if s.stop {
 					break
 				}
